@@ -130,6 +130,7 @@ fn real_main(cmd: &str, args: &Args) -> i32 {
     match cmd {
         "names" => {
             let (_iset, names) = simenv::wrapped_set();
+            let names = if args.opt.contains_key("op-subjects") { engines::envelope::op_subjects(&names) } else { names };
             for n in names {
                 println!("{}", n);
             }
